@@ -33,7 +33,10 @@ RULE = ("seeded random terminal sets (1-12 terminals; input/output sizes "
         "group and is torn down in operation, a second master initialises "
         "them again, optionally connects a second time, and runs 1-2 groups "
         "over other subsets: outputs of every terminal on the segment hold "
-        "exactly what its group sent and nothing if nobody writes them. "
+        "exactly what its group sent and nothing if nobody writes them; "
+        "long-run leg: a simple and a parallel (FMMULock) master keep one "
+        "group allocated while another is allocated 1100 (thorough 5000) "
+        "times, every new window must be disjoint from the live group's. "
         "a case = one master configuration; "
         "non-trivial = >= 2 terminals with process data")
 ASSUMPTIONS = ["any disjoint placement inside the transporting datagram is "
